@@ -155,13 +155,21 @@ func (fip *FloatingIPPool) UnmarshalJSON(data []byte) error {
 }
 
 func fipCheck(fip *FloatingIPPool) error {
+	// ips are handled as 32-bit integers everywhere, ipv6 addresses would be truncated to their low 32 bits
+	if fip.Gateway.To4() == nil || len(fip.Mask) != net.IPv4len {
+		return fmt.Errorf("gateway %s or subnet mask %s is not ipv4", fip.Gateway.String(), fip.Mask.String())
+	}
 	net := net.IPNet{IP: fip.Gateway, Mask: fip.Mask}
 	for i := range fip.IPRanges {
+		if fip.IPRanges[i].First.To4() == nil || fip.IPRanges[i].Last.To4() == nil {
+			return fmt.Errorf("ip range %s is not ipv4", fip.IPRanges[i].String())
+		}
 		if !net.Contains(fip.IPRanges[i].First) || !net.Contains(fip.IPRanges[i].Last) {
 			return fmt.Errorf("ip range %s not in subnet %s", fip.IPRanges[i].String(), net.String())
 		}
 		if i != 0 {
-			if nets.IPToInt(fip.IPRanges[i].First) <= nets.IPToInt(fip.IPRanges[i-1].Last)+1 {
+			// compare in 64 bits, last+1 wraps to 0 in 32 bits if the previous range ends at 255.255.255.255
+			if uint64(nets.IPToInt(fip.IPRanges[i].First)) <= uint64(nets.IPToInt(fip.IPRanges[i-1].Last))+1 {
 				return fmt.Errorf("ip range %s and %s can be merge to one or has wrong order",
 					fip.IPRanges[i-1].String(), fip.IPRanges[i].String())
 			}
